@@ -1,7 +1,7 @@
 """C17: option precedence (force > cmd > file > default; record, unused, overrides) and immunity of the
 statutory rules to arithmetic/precision/guard/display/omega/quota/batch options -- configuration level.
 Whole-count immunity runs are added by props/c17_counts.py when present."""
-import collections
+import collections, re
 import options_driver as od
 from common import rng_for
 
@@ -120,6 +120,21 @@ def run(chk, ctx):
         pass
 
 def replay(chk, payload):
+    if 'blt' in payload:      # whole-count cases of props/c17_counts.py
+        import count_driver as cd, oracles
+        opts = payload['options']
+        y = cd.impl_count(payload['blt'], opts, want_E=True)
+        print("status:", y['status'])
+        bad = False
+        if 'E' in y:
+            v = oracles.c17_report_header(y['E'], payload['blt'], opts, y)
+            print("report header oracle:", v or 'holds')
+            bad = bad or bool(v)
+        blt0 = re.sub(r'\n\[droop [^\]]*\]', '', payload['blt'])
+        x = cd.impl_count(blt0, dict(rule=opts['rule']))
+        same = (x['status'], x['trace']) == (y['status'], y['trace'])
+        print("count identical to the count without options:", same)
+        return 1 if (bad or not same) else 0
     c = payload['case']
     if c.get('kind', 'setup') != 'setup':
         print("implementation:", od.impl_eval(c)); return 0
